@@ -188,6 +188,10 @@ class Gen:
                 self.a.jump("L%d" % j)
                 depth_in[j] = min(depth_in.get(j, d), d)
                 self.features.add("JUMP")
+            elif r < 0.76 and self.allow.get("bad_jumps"):
+                # an unconditional jump to a constant that is no JUMPDEST: the path ends here, whatever follows
+                self.a.emit(rng.choice([0xffffff, 0xfffffe, (1 << 32) + 5, evm.M256]), "JUMP")
+                self.features.add("bad-JUMP")
             elif r < 0.85:
                 h = rng.choice(HALTS if self.allow.get("halts", True) else ["STOP"])
                 need = {"RETURN": 2, "REVERT": 2, "SELFDESTRUCT": 1}.get(h, 0)
